@@ -193,7 +193,7 @@ def _match_roots(got, exp, tol):
     exp = [complex(r[0], r[1]) for r in exp]
     if not all(np.isfinite(g) for g in got):
         return False
-    if len(got) > len(exp):
+    if len(got) > len(exp) or len(got) == 0:
         return False
     return all(min(abs(g - e) for e in exp) <= tol for g in got) and \
         all(min(abs(g - e) for g in got) <= tol for e in exp)
